@@ -36,9 +36,9 @@ struct SampleRun {
         stream_faults(std::vector<std::string>(toks.begin() + (long) std::min(skip, toks.size()), toks.end()));
         env.stream.begin_call(); env.lib_calls++;
     }
-    void finish(SampleCursor& c, const char* what) {
-        if (!c.err.empty()) env.fail("C10", "M-sample:request-sequence", std::string(what) + ": " + c.err);
-        if (!c.done()) env.fail("C10", "M-sample:request-sequence", strf("%s made %zu random requests, the model needs only %zu (a candidate the model accepts was rejected, or extra bytes were drawn)", what, env.stream.reqs.size(), c.pos));
+    void finish(SampleCursor& c, const char* what, const char* prop = "C10") {
+        if (!c.err.empty()) env.fail(prop, "M-sample:request-sequence", std::string(what) + ": " + c.err);
+        if (!c.done()) env.fail(prop, "M-sample:request-sequence", strf("%s made %zu random requests, the model needs only %zu (a candidate the model accepts was rejected, or extra bytes were drawn)", what, env.stream.reqs.size(), c.pos));
         if (c.rejections >= 3) env.count("probe:three_or_more_consecutive_rejections");
         if (c.rejections) env.count("probe:rejections", c.rejections);
     }
@@ -127,7 +127,7 @@ struct SampleRun {
         GTv out; Frv y; memset(y.b, 0, 32); const char* nm = which ? "random_gt" : "gt_multiply_random";
         if (which) { R.jv_const_get(JV_EK_GT, 1, b.b); R.jv_wk_random_gt(view, out.b, jv_rand_cb); }
         else R.jv_gt_multiply_random(view, out.b, y.b, b.b, jv_rand_cb);
-        SampleCursor c(env.stream.reqs); Bn v; uint64_t d[4]; model_powers_random(c, v, d); finish(c, nm);
+        SampleCursor c(env.stream.reqs); Bn v; uint64_t d[4]; model_powers_random(c, v, d); finish(c, nm, "C07");
         if (!which) { env.check(Bn::from_le(y.b, 32) == v, "C07", "random-exponent:value", strf("gt_multiply_random returned exponent %s, the stream determines %s", Bn::from_le(y.b, 32).hexstr().c_str(), v.hexstr().c_str())); env.check(Bn::from_le(y.b, 32) < K().r, "C07", "random-exponent:below-r", "random exponent >= r"); }
         env.check(w.ct(out) == w.ct(w.gtpow(b, v)), "C07", "random-exponent:power", std::string(nm) + ": result != base^y by generic square-and-multiply");
         GTv nd; uint8_t k[32]; v.to_le(k, 32); R.jv_gt_pow_nodiv(nd.b, b.b, k);
